@@ -825,6 +825,11 @@ class Channel:
         try:
             return self._remoteerrors.pop(0)
         except IndexError:
+            if self._closed:
+                # closed regularly (by close() or by the other side) before
+                # the connection ended: the connection's end is not an
+                # error of this channel
+                return None
             try:
                 return self.gateway._error
             except AttributeError:
